@@ -16,9 +16,9 @@ import (
 
 func init() {
 	ev.Register(&ev.Check{
-		ID:    "C02",
-		Level: "exploration",
-		Rule: "for each scalar kind: ALL rule sets of <= 5 (thorough 7) distinct rule names from the applicable pool (min,max,exclusiveMinimum,exclusiveMaximum,precision,type,nullable,const,enum | minLength,maxLength,regex,type incl. formats,...) x ALL parameter variants from boundary sets (bounds {-1,0,0.5,1,10}, lengths {0,1,2}, 3 patterns, true/false) x every example candidate the reference accepts, kept when Check accepts; each validated against ALL probe values on/just inside/just outside every bound (33 numerals + alternative spellings, 20 strings incl. escapes, format grids: dates over 5 years x months 00-13 x days 00-32, datetime field boundaries, uuid shapes, curated email/uri lists) and every other kind. Oracle: reference rule semantics (math/big, regexp, calendar), three-valued. Non-trivial = distinct (rule set, example, probe) with decided reference.",
+		ID:             "C02",
+		Level:          "exploration",
+		Rule:           "for each scalar kind: ALL rule sets of <= 5 (thorough 7) distinct rule names from the applicable pool (min,max,exclusiveMinimum,exclusiveMaximum,precision,type,nullable,const,enum | minLength,maxLength,regex,type incl. formats,...) x ALL parameter variants from boundary sets (bounds {-1,0,0.5,1,10}, lengths {0,1,2}, 3 patterns, true/false) x every example candidate the reference accepts, kept when Check accepts; each validated against ALL probe values on/just inside/just outside every bound (33 numerals + alternative spellings, 20 strings incl. escapes, format grids: dates over 5 years x months 00-13 x days 00-32, datetime field boundaries, uuid shapes, curated email/uri lists) and every other kind. Oracle: reference rule semantics (math/big, regexp, calendar), three-valued. Non-trivial = distinct (rule set, example, probe) with decided reference.",
 		Run:            run,
 		Replay:         replay,
 		QuickBudget:    80 * time.Second,
